@@ -190,7 +190,7 @@ func ruleF8c(c *Ctx) {
 		// the same set kept as a read-only map[string]bool
 		if len(got) == 0 {
 			for _, kv := range readOnlyStringTable(c, p, fd) {
-				if id, ok := kv.Value.(*ast.Ident); ok && id.Name == "true" {
+				if isMemberValue(kv.Value) {
 					if s, ok := constStr(info, kv.Key); ok {
 						got[s] = true
 					}
@@ -634,6 +634,36 @@ func ruleF8c(c *Ctx) {
 					others++
 				}
 			})
+		}
+		// the same selection written as a loop: best = first; for each candidate, if less(candidate, best) { best = candidate }
+		if mins == 0 {
+			for _, g := range unitOf(f, 2) {
+				callsIn(g, func(ci ssa.CallInstruction) {
+					cc := ci.Common()
+					sig, ok := cc.Value.Type().Underlying().(*types.Signature)
+					if !ok || cc.IsInvoke() || sig.Results().Len() != 1 || !isBoolType(sig.Results().At(0).Type()) || len(cc.Args) < 2 {
+						return
+					}
+					// a comparator of two encodings: one of the two named comparators, or a function value
+					n0, _ := namedOf(cc.Args[0].Type())
+					n1, _ := namedOf(cc.Args[1].Type())
+					if n0 != "Encoding" || n1 != "Encoding" {
+						return
+					}
+					if sc := cc.StaticCallee(); sc != nil && !strings.HasPrefix(sc.Name(), "findBestEncoding") && sc.Parent() == nil {
+						return
+					}
+					v, isVal := ci.(ssa.Value)
+					if !isVal || loopHeaderOf(ci.Block()) == nil || v.Referrers() == nil {
+						return
+					}
+					for _, r := range *v.Referrers() {
+						if _, isIf := r.(*ssa.If); isIf {
+							mins++
+						}
+					}
+				})
+			}
 		}
 		c.check(mins >= 1 && others == 0, "F8c", "FindEncoding|takes the minimum", c.L.Pos(f.Pos()), fmt.Sprintf("the best candidate is lo.MinBy under the comparator (found MinBy x%d, other selectors x%d)", mins, others))
 	}
